@@ -2,7 +2,7 @@
 From Coq Require Import ZArith List Bool NArith Lia ZifyBool ZifyNat.
 From Coq.Strings Require Import Byte String.
 From EsVerif.Common Require Import Base Bytes.
-From EsVerif.C01 Require Import Framing FramingProofs Model Spec Layout LayoutProofs.
+From EsVerif.C01 Require Import Framing FramingProofs Model Spec Layout LayoutProofs Entry.
 Import ListNotations.
 Open Scope Z_scope.
 Open Scope list_scope.
@@ -265,6 +265,46 @@ Section PyProofs.
   Proof.
     intros H U IB N E R. rewrite sfile_write_view_eq by exact IB.
     apply roundtrip; auto using view_rows_nonempty, view_rows_fit.
+  Qed.
+
+  (* ---------------------------------------------------------------- the entry points *)
+  Notation W_SFile := (SFile_write pyval v_str v_descr pformat).
+  Notation W_fn := (sfile_write_fn pyval v_str v_descr pformat).
+  Notation W_io := (io_write pyval v_str v_descr pformat).
+  Notation R_SFile := (SFile_read pyval v_str v_int np_dtype pyeval).
+  Notation R_fn := (sfile_read_fn pyval v_str v_int np_dtype pyeval).
+  Notation R_io := (io_read pyval v_str v_int np_dtype pyeval).
+
+  (* the self-describing entry points denote the same model functions *)
+  Theorem entrypoints_agree :
+    (forall sw h dt v, W_fn sw h dt v = W_SFile h dt v)
+    /\ (forall h dt v, W_io h dt v = W_SFile h dt v)
+    /\ (forall dt v, W_SFile None dt v = W_SFile (Some []) dt v)
+    /\ (forall h dt v, W_SFile (Some h) dt v = sfile_write_view pyval v_str v_descr pformat h dt v)
+    /\ (forall f, R_fn f = R_SFile f) /\ (forall f, R_io f = R_SFile f)
+    /\ (forall f, R_SFile f = sfile_read pyval v_str v_int np_dtype pyeval f)
+    /\ (forall v, recfile_write_fn v = Recfile_write v) /\ (forall v, Recfile_write v = recfile_write_view v)
+    /\ (forall f dt n, recfile_read_fn f dt n = Recfile_read f dt n)
+    /\ (forall f dt n, Recfile_read f dt n = recfile_read0 f dt n).
+  Proof. repeat split; reflexivity. Qed.
+
+  (* hence: written through ANY of the three self-describing writers (either argument order of
+     sfile.write, header given or None) and read through ANY of the three readers *)
+  Theorem roundtrip_every_entry_point hdr dt v :
+    H_pf pyval pyeq pformat pyeval np_dtype (mkh (hdr_arg pyval hdr) dt) dt ->
+    user_hdr_ok pyval (hdr_arg pyval hdr) ->
+    in_bounds v = true -> (1 <= view_size v)%nat -> Z.of_nat (v_item v) = rowsize dt -> 0 < rowsize dt ->
+    forall w r,
+      In w [W_SFile; W_fn false; W_fn true; W_io] -> In r [R_SFile; R_fn; R_io] ->
+      exists out, r (w hdr dt v) = Ok out
+                  /\ roundtrip_ok pyval pyeq v_int np_dtype (hdr_arg pyval hdr) dt (view_rows v) out.
+  Proof.
+    intros H U IB N E R w r Hw Hr.
+    assert (Ew : w hdr dt v = sfile_write_view pyval v_str v_descr pformat (hdr_arg pyval hdr) dt v).
+    { cbn [In] in Hw. destruct Hw as [<-|[<-|[<-|[<-|[]]]]]; reflexivity. }
+    assert (Er : forall f, r f = sfile_read pyval v_str v_int np_dtype pyeval f).
+    { cbn [In] in Hr. destruct Hr as [<-|[<-|[<-|[]]]]; reflexivity. }
+    rewrite Er, Ew. apply roundtrip_any_layout; assumption.
   Qed.
 
   (* the data region of a self-describing file, read by the low-level reader given the dtype
